@@ -658,7 +658,8 @@ impl PartialEq<Self> for XType {
             (Self::Float, Self::Float) => true,
             (Self::String, Self::String) => true,
             (Self::Compound(k0, ref a, ref a_b), Self::Compound(k1, ref b, ref b_b)) => {
-                k0 == k1 && a.name == b.name && a_b == b_b
+                // two declarations with the same name (one shadowing the other) are different types
+                k0 == k1 && (Arc::ptr_eq(a, b) || a == b) && a_b == b_b
             }
             (Self::XCallable(ref a), Self::XCallable(ref b)) => a.eq(b),
             (Self::XFunc(ref a), Self::XFunc(ref b)) => {
